@@ -93,17 +93,53 @@ func hasSummary(d hcl.Diagnostics, prefix string) bool {
 	return false
 }
 
-// emptyMapTypeDiff: the first place where a and b differ holds two empty maps of
-// different element types (the multi-label BlockMapSpec shape).
+// mistypedEmptyMap: v is a KNOWN, non-null, EMPTY map(T) standing where map(map(..map(T)..)) (two or
+// more levels) is wanted: exactly what a multi-label BlockMapSpec without blocks returns
+// (MapValEmpty(Nested.impliedType()) instead of one map level per label) - the pinned finding.
+func mistypedEmptyMap(v cty.Value, want cty.Type) bool {
+	vt := v.Type()
+	if !v.IsKnown() || v.IsNull() || !vt.IsMapType() || !want.IsMapType() || v.LengthInt() != 0 {
+		return false
+	}
+	for t := want.ElementType(); t.IsMapType(); {
+		t = t.ElementType()
+		if t.Equals(vt.ElementType()) {
+			return true
+		}
+	}
+	return false
+}
+
+// dynamicForCollection: v is cty.DynamicVal standing where a list or set is wanted: what
+// BlockListSpec/BlockSetSpec return, together with an "Unconsistent argument types" error, when the
+// element types cannot be unified - the pinned finding.
+//
+// An enclosing BlockList/BlockSet spreads it: convert.UnifyUnsafe of [dynamic, T, ...] turns EVERY
+// element into cty.DynamicVal, so one error can account for several such places (seed 2, n=6000:
+// blockset(b1)[blockset(b1)[attr(a1:dynamic)]] gives SetVal{DynamicVal, DynamicVal, DynamicVal}).
+func dynamicForCollection(v cty.Value, want cty.Type) bool {
+	return v.Type() == cty.DynamicPseudoType && !v.IsKnown() && (want.IsListType() || want.IsSetType())
+}
+
+// emptyMapTypeDiff: a and b differ, and EVERY place where they differ holds, in a, a mistyped empty map
+// of the multi-label BlockMapSpec shape and, in b, the empty map of the wanted type.
 func emptyMapTypeDiff(a, b cty.Value) bool {
 	a, _ = a.Unmark()
 	b, _ = b.Unmark()
 	if a.RawEquals(b) {
 		return false
 	}
+	return emptyMapDiffOnly(a, b)
+}
+
+func emptyMapDiffOnly(a, b cty.Value) bool {
+	a, _ = a.Unmark()
+	b, _ = b.Unmark()
+	if a.RawEquals(b) {
+		return true
+	}
 	at, bt := a.Type(), b.Type()
-	if at.IsMapType() && bt.IsMapType() && a.IsKnown() && b.IsKnown() && !a.IsNull() && !b.IsNull() &&
-		a.LengthInt() == 0 && b.LengthInt() == 0 {
+	if bt.IsMapType() && b.IsKnown() && !b.IsNull() && b.LengthInt() == 0 && mistypedEmptyMap(a, bt) {
 		return true
 	}
 	if !a.IsKnown() || !b.IsKnown() || a.IsNull() || b.IsNull() || !a.CanIterateElements() || !b.CanIterateElements() {
@@ -112,40 +148,65 @@ func emptyMapTypeDiff(a, b cty.Value) bool {
 	if a.LengthInt() != b.LengthInt() {
 		return false
 	}
+	switch {
+	case at.IsObjectType() && bt.IsObjectType(), at.IsTupleType() && bt.IsTupleType(),
+		at.IsListType() && bt.IsListType(), at.IsMapType() && bt.IsMapType():
+	case at.IsSetType() && bt.IsSetType():
+		// no corresponding positions: every element of a must pair with a distinct element of b
+		var bs []cty.Value
+		for it := b.ElementIterator(); it.Next(); {
+			_, bv := it.Element()
+			bs = append(bs, bv)
+		}
+		used := make([]bool, len(bs))
+		for it := a.ElementIterator(); it.Next(); {
+			_, av := it.Element()
+			found := false
+			for i, bv := range bs {
+				if !used[i] && emptyMapDiffOnly(av, bv) {
+					used[i], found = true, true
+					break
+				}
+			}
+			if !found {
+				return false
+			}
+		}
+		return true
+	default:
+		return false
+	}
 	ai, bi := a.ElementIterator(), b.ElementIterator()
 	for ai.Next() && bi.Next() {
 		ak, av := ai.Element()
 		bk, bv := bi.Element()
-		if !ak.RawEquals(bk) && !at.IsSetType() {
+		if !ak.RawEquals(bk) || !emptyMapDiffOnly(av, bv) {
 			return false
 		}
-		if !av.RawEquals(bv) {
-			return emptyMapTypeDiff(av, bv)
-		}
 	}
-	return false
+	return true
 }
 
-// explainedByEmptyMap: every place where v's type does not conform to want is a KNOWN, non-null, EMPTY
-// map standing where a map type is wanted - the shape of the pinned finding (MapValEmpty of the nested
-// type for a multi-label BlockMapSpec without blocks). Unknown maps, non-empty maps and any other
-// difference are not explained by it.
-func explainedByEmptyMap(v cty.Value, want cty.Type) bool {
+// explainedBy: every place where v's type does not conform to want satisfies leaf (the shape of one
+// pinned finding). Any other difference - an unknown or non-empty map of the wrong type, a wrong
+// primitive, a missing attribute ... - is not explained. *n counts the places accepted by leaf.
+func explainedBy(v cty.Value, want cty.Type, leaf func(cty.Value, cty.Type) bool, n *int) bool {
 	v, _ = v.Unmark()
 	vt := v.Type()
 	if len(vt.TestConformance(want)) == 0 {
 		return true
 	}
+	if leaf(v, want) {
+		*n++
+		return true
+	}
 	if !v.IsKnown() || v.IsNull() {
 		return false
-	}
-	if vt.IsMapType() && want.IsMapType() && v.LengthInt() == 0 {
-		return true
 	}
 	switch {
 	case vt.IsObjectType() && want.IsObjectType():
 		for name, at := range want.AttributeTypes() {
-			if !vt.HasAttribute(name) || !explainedByEmptyMap(v.GetAttr(name), at) {
+			if !vt.HasAttribute(name) || !explainedBy(v.GetAttr(name), at, leaf, n) {
 				return false
 			}
 		}
@@ -156,7 +217,7 @@ func explainedByEmptyMap(v cty.Value, want cty.Type) bool {
 			return false
 		}
 		for i, wt := range wts {
-			if !explainedByEmptyMap(v.Index(cty.NumberIntVal(int64(i))), wt) {
+			if !explainedBy(v.Index(cty.NumberIntVal(int64(i))), wt, leaf, n) {
 				return false
 			}
 		}
@@ -167,13 +228,223 @@ func explainedByEmptyMap(v cty.Value, want cty.Type) bool {
 		}
 		for it := v.ElementIterator(); it.Next(); {
 			_, ev := it.Element()
-			if !explainedByEmptyMap(ev, want.ElementType()) {
+			if !explainedBy(ev, want.ElementType(), leaf, n) {
 				return false
 			}
 		}
 		return true
 	}
 	return false
+}
+
+func explainedByEmptyMap(v cty.Value, want cty.Type) bool {
+	n := 0
+	return explainedBy(v, want, mistypedEmptyMap, &n) && n > 0
+}
+
+// explainedByDynamic: every non-conforming place is a DynamicVal where a list/set is wanted.
+func explainedByDynamic(v cty.Value, want cty.Type) bool {
+	n := 0
+	return explainedBy(v, want, dynamicForCollection, &n) && n > 0
+}
+
+func explainedByBoth(v cty.Value, want cty.Type) bool {
+	n, m := 0, 0
+	return explainedBy(v, want, func(x cty.Value, w cty.Type) bool {
+		if dynamicForCollection(x, w) {
+			m++
+			return true
+		}
+		return mistypedEmptyMap(x, w)
+	}, &n) && m > 0
+}
+
+func countSummary(d hcl.Diagnostics, prefix string) int {
+	n := 0
+	for _, x := range d {
+		if x.Severity == hcl.DiagError && strings.HasPrefix(x.Summary, prefix) {
+			n++
+		}
+	}
+	return n
+}
+
+// ---- where a mistyped empty map meets a correctly typed one --------------------------------------
+//
+// The two consequences of the multi-label BlockMapSpec finding are recognised by locating their SITE on
+// the real code: the spec is walked along the body; at every BlockMapSpec (resp. BlockListSpec /
+// BlockSetSpec) the blocks of its type are decoded ONE AT A TIME with that very spec. The site is
+// explained by the finding when every such value differs from the spec's implied type by mistyped empty
+// maps only (explainedBy mistypedEmptyMap) and at least one does.
+
+type blocksBody struct {
+	blocks hcl.Blocks
+	rng    hcl.Range
+}
+
+func (b blocksBody) Content(s *hcl.BodySchema) (*hcl.BodyContent, hcl.Diagnostics) {
+	c, _, d := b.PartialContent(s)
+	return c, d
+}
+func (b blocksBody) PartialContent(s *hcl.BodySchema) (*hcl.BodyContent, hcl.Body, hcl.Diagnostics) {
+	return &hcl.BodyContent{Attributes: hcl.Attributes{}, Blocks: b.blocks, MissingItemRange: b.rng}, blocksBody{rng: b.rng}, nil
+}
+func (b blocksBody) JustAttributes() (hcl.Attributes, hcl.Diagnostics) { return hcl.Attributes{}, nil }
+func (b blocksBody) MissingItemRange() hcl.Range                        { return b.rng }
+
+type emSite struct {
+	typeName string
+	isMap    bool
+	depth    int        // number of labels (maps) of a BlockMapSpec, 1 for lists/sets
+	types    []cty.Type // types of the separately decoded blocks (each the whole map/list of one block)
+}
+
+func emptyMapSites(root hcldec.Spec, body hcl.Body, ctx *hcl.EvalContext, out *[]emSite, fuel int) {
+	if fuel <= 0 {
+		return
+	}
+	var content *hcl.BodyContent
+	func() {
+		defer func() { recover() }()
+		content, _, _ = body.PartialContent(hcldec.ImpliedSchema(root))
+	}()
+	if content == nil {
+		return
+	}
+	blocksOf := func(name string) hcl.Blocks {
+		var bs hcl.Blocks
+		for _, b := range content.Blocks {
+			if b.Type == name {
+				bs = append(bs, b)
+			}
+		}
+		return bs
+	}
+	site := func(s hcldec.Spec, name string, isMap bool, depth int) {
+		bs := blocksOf(name)
+		if len(bs) >= 2 {
+			ity, p := impliedSafe(s)
+			st := emSite{typeName: name, isMap: isMap, depth: depth}
+			ok, some := !p, false
+			for _, b := range bs {
+				o := decodeSafe(blocksBody{blocks: hcl.Blocks{b}, rng: b.DefRange}, s, ctx, false)
+				// (the other pinned shape, a DynamicVal for an un-unifiable list/set, may occur next to it)
+				n, m := 0, 0
+				if o.panicked || !explainedBy(o.val, ity, func(x cty.Value, w cty.Type) bool {
+					if mistypedEmptyMap(x, w) {
+						m++
+						return true
+					}
+					return dynamicForCollection(x, w)
+				}, &n) {
+					ok = false
+					break
+				}
+				some = some || m > 0
+				uv, _ := o.val.Unmark()
+				st.types = append(st.types, uv.Type())
+			}
+			if ok && some {
+				*out = append(*out, st)
+			}
+		}
+	}
+	descend := func(name string, nested hcldec.Spec) {
+		for _, b := range blocksOf(name) {
+			emptyMapSites(nested, b.Body, ctx, out, fuel-1)
+		}
+	}
+	var visit func(s hcldec.Spec)
+	visit = func(s hcldec.Spec) {
+		switch s := s.(type) {
+		case hcldec.ObjectSpec:
+			for _, k := range s {
+				visit(k)
+			}
+		case hcldec.TupleSpec:
+			for _, k := range s {
+				visit(k)
+			}
+		case *hcldec.DefaultSpec:
+			visit(s.Primary)
+			visit(s.Default)
+		case *hcldec.TransformExprSpec:
+			visit(s.Wrapped)
+		case *hcldec.TransformFuncSpec:
+			visit(s.Wrapped)
+		case *hcldec.RefineValueSpec:
+			visit(s.Wrapped)
+		case *hcldec.ValidateSpec:
+			visit(s.Wrapped)
+		case *hcldec.BlockSpec:
+			descend(s.TypeName, s.Nested)
+		case *hcldec.BlockTupleSpec:
+			descend(s.TypeName, s.Nested)
+		case *hcldec.BlockObjectSpec:
+			descend(s.TypeName, s.Nested)
+		case *hcldec.BlockListSpec:
+			site(s, s.TypeName, false, 1)
+			descend(s.TypeName, s.Nested)
+		case *hcldec.BlockSetSpec:
+			site(s, s.TypeName, false, 1)
+			descend(s.TypeName, s.Nested)
+		case *hcldec.BlockMapSpec:
+			site(s, s.TypeName, true, len(s.LabelNames))
+			descend(s.TypeName, s.Nested)
+		}
+	}
+	visit(root)
+}
+
+// panicAtEmptyMapSite: the panic is cty.MapVal's "inconsistent map element types (A then B)" and A, B
+// are the (element) types of two blocks of ONE BlockMapSpec site explained by the finding.
+func panicAtEmptyMapSite(spec hcldec.Spec, body hcl.Body, ctx *hcl.EvalContext, pmsg string) bool {
+	var sites []emSite
+	emptyMapSites(spec, body, ctx, &sites, 8)
+	for _, st := range sites {
+		if !st.isMap {
+			continue
+		}
+		var cands []cty.Type
+		for _, t := range st.types {
+			for k := 0; k < st.depth && t.IsMapType(); k++ {
+				t = t.ElementType()
+				cands = append(cands, t)
+			}
+		}
+		for _, a := range cands {
+			for _, b := range cands {
+				if !a.Equals(b) && pmsg == fmt.Sprintf("inconsistent map element types (%#v then %#v)", a, b) {
+					return true
+				}
+			}
+		}
+	}
+	return false
+}
+
+// rejectedAtEmptyMapSites: every error is BlockListSpec/BlockSetSpec's "Unconsistent argument types in
+// T blocks" for a list/set site T explained by the finding.
+func rejectedAtEmptyMapSites(spec hcldec.Spec, body hcl.Body, ctx *hcl.EvalContext, diags hcl.Diagnostics) bool {
+	var sites []emSite
+	emptyMapSites(spec, body, ctx, &sites, 8)
+	names := map[string]bool{}
+	for _, st := range sites {
+		if !st.isMap {
+			names["Unconsistent argument types in "+st.typeName+" blocks"] = true
+		}
+	}
+	n := 0
+	for _, d := range diags {
+		if d.Severity != hcl.DiagError {
+			continue
+		}
+		if !names[d.Summary] {
+			return false
+		}
+		n++
+	}
+	return n > 0
 }
 
 func findSpec(s *gspec, pred func(*gspec) bool) bool {
@@ -450,11 +721,13 @@ func runJob(j job, ctx *hcl.EvalContext, rep *hv.Report, cf *hv.CaseFile) {
 			if o.o.panicked {
 				kind := "panic"
 				switch {
+				case strings.HasPrefix(o.o.pmsg, "inconsistent map element types") && kinds["blockmap(multi-label)"] &&
+					panicAtEmptyMapSite(spec, body, ctx, o.o.pmsg):
+					// decided by the exact site and the exact two types of the message, so it goes first
+					kind = "panic-blockmap-multilabel-empty-nested"
 				case strings.Contains(o.o.pmsg, "inconsistent map element types") &&
 					findSpec(in.Spec, func(s *gspec) bool { return s.Kind == "blockattrs" && tyOf(s.Type).HasDynamicTypes() }):
 					kind = "panic-blockattrs-dynamic-element-type"
-				case strings.Contains(o.o.pmsg, "inconsistent map element types") && kinds["blockmap(multi-label)"]:
-					kind = "panic-blockmap-multilabel-empty-nested"
 				case strings.Contains(o.o.pmsg, "inconsistent list element types") || strings.Contains(o.o.pmsg, "inconsistent set element types"):
 					kind = "panic-blocklist-nested-dynamic"
 				}
@@ -463,11 +736,15 @@ func runJob(j job, ctx *hcl.EvalContext, rep *hv.Report, cf *hv.CaseFile) {
 			}
 			if errs := o.o.val.Type().TestConformance(ity); len(errs) > 0 {
 				kind := "type-not-conforming"
+				// a known kind only when EVERY non-conforming place has the shape of that finding
+				nUn := countSummary(o.o.diags, "Unconsistent argument types in ")
 				switch {
-				case hasSummary(o.o.diags, "Unconsistent argument types"):
+				case nUn > 0 && explainedByDynamic(o.o.val, ity):
 					kind = "blocklist-dynamic-ununifiable"
 				case kinds["blockmap(multi-label)"] && explainedByEmptyMap(o.o.val, ity):
 					kind = "blockmap-multilabel-empty-type"
+				case nUn > 0 && kinds["blockmap(multi-label)"] && explainedByBoth(o.o.val, ity):
+					kind = "blocklist-dynamic-ununifiable" // both pinned shapes in one value
 				}
 				fail(kind, fmt.Sprintf("%s returned %#v; implied type %#v: %v", o.name, o.o.val.Type(), ity, errs[0]))
 				break
@@ -484,7 +761,7 @@ func runJob(j job, ctx *hcl.EvalContext, rep *hv.Report, cf *hv.CaseFile) {
 			switch {
 			case full.errs > 0 && !j.exp.errExp && j.exp.ok:
 				kind := "conforming-body-rejected"
-				if kinds["blockmap(multi-label)"] && hasSummary(full.diags, "Unconsistent argument types") {
+				if kinds["blockmap(multi-label)"] && rejectedAtEmptyMapSites(spec, body, ctx, full.diags) {
 					// the mistyped empty map of a multi-label BlockMapSpec next to a
 					// non-empty one under a BlockList/BlockSet: element types differ
 					kind = "blockmap-multilabel-empty-type"
